@@ -256,7 +256,7 @@ def run_D(case):
         naive = pd.date_range(f0, periods=ndays, freq="D")
         idx = naive.tz_localize(zone, ambiguous=True, nonexistent="shift_forward")
         pos = int(np.flatnonzero(naive == day)[0])
-        for defect in ("none", "Tnan_on", "Tnan_after", "Unan_on"):
+        for defect in ("none", "Tnan_on", "Tnan_after", "Unan_on", "Tinf_before"):
             for usage in (True, False):
                 if defect == "Unan_on" and not usage:
                     continue
@@ -269,6 +269,8 @@ def run_D(case):
                     T[min(pos + 1, ndays - 1)] = np.nan
                 if defect == "Unan_on":
                     y[pos] = np.nan
+                if defect == "Tinf_before":
+                    T[max(pos - 1, 0)] = np.inf   # a non-finite (not missing) temperature: the row stays, without a prediction
                 try:
                     if family == "daily":
                         cols = {"observed": y, "temperature": T} if usage else {"temperature": T}
